@@ -418,9 +418,11 @@ Section Elem.
     | _ => PErr
     end.
 
-  (* the ordered choice of _direct_objects ([allow_ref] = true) and of the content-stream
-     [operand] ([allow_ref] = false: same list without [reference]) *)
-  Definition object_alts (allow_ref : bool) (n : nat) (s : bytes) : pres obj :=
+  (* the ordered choice of _direct_objects_at ([allow_ref] = true) and of the content-stream
+     [operand] ([allow_ref] = false: same list without [reference]).
+     [cont] = false is depth 0 of array(input, depth) / dictionary_at(input, depth): both
+     container alternatives return Error (too_deep) *)
+  Definition object_alts_c (cont : bool) (allow_ref : bool) (n : nat) (s : bytes) : pres obj :=
     palt (null s) (fun _ =>
     palt (boolean s) (fun _ =>
     palt (if allow_ref then reference s else PErr) (fun _ =>
@@ -429,15 +431,25 @@ Section Elem.
     palt (pmap OName (name s)) (fun _ =>
     palt (pmap (fun t => OStr t false) (literal_string n s)) (fun _ =>
     palt (pmap (fun t => OStr t true) (hexadecimal_string s)) (fun _ =>
-    palt (pmap OArr (array_p n s)) (fun _ =>
-    pmap ODict (dictionary_p n s)))))))))).
+    palt (if cont then pmap OArr (array_p n s) else PErr) (fun _ =>
+    if cont then pmap ODict (dictionary_p n s) else PErr))))))))).
+  Definition object_alts := object_alts_c true.
 End Elem.
 
-Fixpoint direct_objects (fuel : nat) (s : bytes) : pres obj :=
+(* arrays and dictionaries nest at most MAX_BRACKET levels: [depth] is the number of container
+   levels still allowed; the elements of a container are parsed one level down *)
+Definition depth_ok (depth : nat) : bool := match depth with O => false | S _ => true end.
+
+Fixpoint direct_objects_at (fuel : nat) (depth : nat) (s : bytes) : pres obj :=
   match fuel with
   | O => POut
-  | S f => object_alts (direct_objects f) true f s
+  | S f => object_alts_c (direct_objects_at f (pred depth)) (depth_ok depth) true f s
   end.
+
+Definition MAX_DEPTH : nat := N.to_nat MAX_BRACKET.
+
+(* _direct_objects = _direct_objects_at(MAX_BRACKET) *)
+Definition direct_objects (fuel : nat) (s : bytes) : pres obj := direct_objects_at fuel MAX_DEPTH s.
 
 Definition direct_object (fuel : nat) (s : bytes) : pres obj :=
   pbind (direct_objects fuel s) (fun o r => POk o (space r)).
@@ -451,7 +463,10 @@ Definition parse_direct_object (s : bytes) : option obj :=
 
 (* standalone dictionary / array at a given fuel *)
 Definition dictionary (fuel : nat) (s : bytes) : pres dict :=
-  match fuel with O => POut | S f => dictionary_p (direct_objects f) f s end.
+  match fuel with
+  | O => POut
+  | S f => if depth_ok MAX_DEPTH then dictionary_p (direct_objects_at f (pred MAX_DEPTH)) f s else PErr
+  end.
 
 (* ---------- content streams ---------- *)
 Definition content_space (s : bytes) : bytes := skip_while is_content_space s.
@@ -460,11 +475,13 @@ Definition operator (s : bytes) : pres bytes :=
   let '(op, r) := take_while is_operator_char s in
   match op with [] => PErr | _ => POk op r end.
 
-(* operand = terminated(alt(... without reference ...), content_space) *)
+(* operand = terminated(alt(... without reference ...), content_space); its array and dictionary
+   alternatives start at depth MAX_BRACKET *)
 Definition operand (fuel : nat) (s : bytes) : pres obj :=
   match fuel with
   | O => POut
-  | S f => pbind (object_alts (direct_objects f) false f s) (fun o r => POk o (content_space r))
+  | S f => pbind (object_alts_c (direct_objects_at f (pred MAX_DEPTH)) (depth_ok MAX_DEPTH) false f s)
+                 (fun o r => POk o (content_space r))
   end.
 
 Fixpoint many0_operand (fuel : nat) (n : nat) (s : bytes) : pres (list obj) :=
@@ -558,7 +575,8 @@ Definition inline_image (fuel : nat) (s : bytes) : pres (list obj * bytes) :=
     | O => POut
     | S f =>
       (* cut: every Error below becomes Failure *)
-      match inner_dictionary (direct_objects f) f (content_space r) [] with
+      (* inner_dictionary = inner_dictionary_at(MAX_BRACKET - 1) *)
+      match inner_dictionary (direct_objects_at f (pred MAX_DEPTH)) f (content_space r) [] with
       | POk d r1 =>
         match ptag (bs "ID") r1 with
         | POk _ r2 =>
